@@ -238,6 +238,8 @@ func storeErrClass(err error, su *core.StateUpdate) string {
 		return "casm-class-missing"
 	case strings.Contains(s, "must be a SierraClass"):
 		return "casm-not-sierra"
+	case strings.Contains(s, "malformed compiled class"):
+		return "casm-compiled-malformed"
 	case errors.Is(err, errInjected):
 		return "injected"
 	}
@@ -288,7 +290,7 @@ func measureState(g *lib.ChainGen, n *node, valid, b *lib.Bundle) (cur, applied 
 func v2List(b *lib.Bundle) []string {
 	var out []string
 	for _, k := range sortedKeys(b.Classes) {
-		if sc, ok := b.Classes[k].(*core.SierraClass); ok && sc.Compiled != nil {
+		if sc, ok := b.Classes[k].(*core.SierraClass); ok && sc.Compiled != nil && !compiledBad(sc) {
 			h := sc.Compiled.Hash(core.HashVersionV2)
 			out = append(out, feltHex(&k), feltHex(&h))
 		}
@@ -310,6 +312,9 @@ type kvRun struct {
 	stored  []*lib.Bundle // the blocks the real node (and the model) currently hold
 	// the variant of storeCasmHashMetadataV2 found in the code under test (probeCasmV2Checked)
 	casmV2Checked bool
+	// the variant of storeCasmHashMetadataV1 found in the code under test: does a compiled class whose V2 hash cannot be
+	// computed give an error (the proposed repair) or a panic (probeCompiledGuarded)
+	compiledGuarded bool
 }
 
 func (k *kvRun) ask(line string) (string, bool) {
@@ -381,6 +386,7 @@ func (k *kvRun) offerKV(label string, pos int, valid, b *lib.Bundle, mustReject 
 	var w wbuf
 	w.tok("node-store")
 	w.boolean(k.casmV2Checked)
+	w.boolean(k.compiledGuarded)
 	w.boolean(k.n.newSt)
 	w.bundle(b)
 	w.tok("1")
@@ -413,7 +419,7 @@ func (k *kvRun) offerKV(label string, pos int, valid, b *lib.Bundle, mustReject 
 	case class == "state-old|state-new":
 		agree = mverdict == "state-old" || mverdict == "state-new"
 	case class == "panic":
-		agree = strings.HasPrefix(mverdict, "panic-")
+		agree = strings.HasPrefix(mverdict, "panic-") || strings.Contains(","+mcasm+",", ",casm-compiled-malformed,")
 	case strings.HasPrefix(class, "casm-"):
 		// Go walks the maps in random order: any of the casm errors the model finds
 		agree = strings.HasPrefix(mverdict, "casm-") && strings.Contains(","+mcasm+",", ","+class+",")
@@ -429,7 +435,10 @@ func (k *kvRun) offerKV(label string, pos int, valid, b *lib.Bundle, mustReject 
 			rp["stack"] = trunc(stack, 1200)
 			sig := "store-panics:kv:" + label
 			what := fmt.Sprintf("Blockchain.Store panics on a block that passed SanityCheckNewHeight (%s, block %d, %s backend): %v — sync's verifier does not recover, the node dies", label, pos, k.backend, storeErr)
-			if strings.HasPrefix(label, "l1handler:calldata-emptied") && strings.Contains(fmt.Sprint(storeErr), "index out of range [0] with length 0") {
+			if strings.HasPrefix(label, "casm:compiled-class") && malformedDeclaredCompiled(b) {
+				sig = casmPanicSig
+				what = casmPanicWhat + fmt.Sprintf(" (%s, block %d of the store-level chain, version %s, %s backend: %v)", label, pos, b.Block.ProtocolVersion, k.backend, storeErr)
+			} else if strings.HasPrefix(label, "l1handler:calldata-emptied") && strings.Contains(fmt.Sprint(storeErr), "index out of range [0] with length 0") {
 				// one known cause, its own stable sig
 				sig = l1PanicSig
 				what = l1PanicWhat + fmt.Sprintf(" (block %d of the store-level chain, %s backend: %v)", pos, k.backend, storeErr)
@@ -529,7 +538,7 @@ func (k *kvRun) resyncModel() {
 	replay := openNode(k.g, k.n.newSt, memory.New())
 	for i := uint64(0); i <= h && int(i) < len(k.stored); i++ {
 		b := k.stored[i]
-		sub := &kvRun{f: k.f, res: lib.NewResult("resync"), g: k.g, n: replay, drv: k.drv, backend: k.backend, name: k.name, casmV2Checked: k.casmV2Checked}
+		sub := &kvRun{f: k.f, res: lib.NewResult("resync"), g: k.g, n: replay, drv: k.drv, backend: k.backend, name: k.name, casmV2Checked: k.casmV2Checked, compiledGuarded: k.compiledGuarded}
 		sub.offerKV("resync", int(i), b, b, false)
 		replay = sub.n
 	}
